@@ -166,7 +166,10 @@ let bb_mode () =
               | _ -> pr "e ?"; List.rev acc in
             let got = loop (rb_of_file b) [] in
             (* the definition the theorems speak about gives the same list *)
-            if got <> readback b readback_buf then pr "READBACK-MISMATCH")
+            if got <> readback b readback_buf then pr "READBACK-MISMATCH";
+            (* ... and so does the read-back through the words of the dump file (qb_rb_write_to_file ;
+               qb_rb_create_from_file, coq/RbOwDumpModel.v) *)
+            if got <> readback_words b readback_buf then pr "READBACK-WORDS-MISMATCH")
        end
      | _ -> ());
     if Buffer.length out > 60000 then flush_out ()
